@@ -20,7 +20,7 @@ from ..model import trees as TM
 from ..monitor import checktrace
 
 LEVEL = "exploration"
-TECHNIQUE = "runtime monitoring: check-trace monitor replays the passing top-level checks of each failing call on the reference model and compares with the message's 'current values'; satisfiability oracle decides stage and innocence of the blamed parameter; misuse annotations on leafless trees in parameter and return position; stacked decoration layers"
+TECHNIQUE = "runtime monitoring: check-trace monitor replays the passing top-level checks of each failing call on the reference model and compares with the message's 'current values'; satisfiability oracle decides stage and innocence of the blamed parameter; misuse annotations on leafless trees in parameter and return position; stacked decoration layers; ill-typed calls made while an older AnnotationError / TypeCheckError is being handled or propagates"
 LEVEL_TEXT = (
     "Held on every generated ill-typed call explored (failure position uniform over parameters and return; plain, "
     "Union and PyTree annotations; both typecheckers; both values of the remove-stack switch). The listed bindings are "
